@@ -41,6 +41,20 @@ NEVER_COMPLETE = {6, 7}  # the announced size is never reached: every offset is 
 HORIZON = 3600.0
 
 
+def _timeouts():
+    """(request timeout, handshake timeout) as the code under test defines them. The property speaks of "the handshake
+    or request timeout", not of 30 s / 60 s: the values are read from the modules; all instants of a case are laid
+    out for 30 s and scaled. A value that is no number, not positive or above ten minutes is not a timeout in the
+    sense of "never holds a connection open indefinitely": the documented 30 s / 60 s are used instead."""
+    from nauyaca.server import protocol as sp
+    from nauyaca.server import tls_protocol as tp
+
+    def sane(v, default):
+        return float(v) if isinstance(v, (int, float)) and not isinstance(v, bool) and 0 < v <= 600 else default
+
+    return sane(getattr(sp, "REQUEST_TIMEOUT", None), 30.0), sane(getattr(tp, "HANDSHAKE_TIMEOUT", None), 60.0)
+
+
 def complete_len(data: bytes) -> int:
     return len(data)
 
@@ -71,6 +85,7 @@ def run_offsets(case: dict):
     data = REQS[case["req"]]
     prefix = data[: case["k"]]
     complete = case["k"] == len(data) and case["req"] not in NEVER_COMPLETE
+    RT, _ht = _timeouts()
 
     async def scenario(loop):
         sim = srvsim.Sim(loop)
@@ -89,7 +104,7 @@ def run_offsets(case: dict):
             for i in range(len(prefix)):
                 tr.feed(prefix[i:i + 1])
                 await asyncio.sleep(0.01)
-        await asyncio.sleep(100)  # far beyond the request timeout
+        await asyncio.sleep(RT * 10 / 3)  # far beyond the request timeout (t=100 for 30 s)
         at100 = (tr.written(), tr.closed_by_app())
         sim.release_all()
         await vloop.settle(8)
@@ -104,16 +119,16 @@ def run_offsets(case: dict):
         # no upload handler: whatever is answered (50 at once, or 40 after the timeout), the peer must not stay connected
         if tr.close_time() is None:
             return viol("never-disconnected", f"Titan without an upload handler, peer silent after {case['k']} bytes; still open at {HORIZON}s", **info)
-        if tr.close_time() > 30.5:
-            return viol("disconnected-late", f"closed at t={tr.close_time()}", **info)
+        if tr.close_time() > RT + 0.5:
+            return viol("disconnected-late", f"closed at t={tr.close_time()} (request timeout {RT}s)", **info)
         if isinstance(wf, str) or wf[0] not in (40, 50, 59):
             return viol("no-40-on-timeout", f"{S[:80]!r}", **info)
         return ok(**info)
     if not complete:
         if tr.close_time() is None:
             return viol("never-disconnected", f"stalled after {case['k']} bytes; still open at {HORIZON}s", **info)
-        if tr.close_time() > 30.0 + 0.5 + 0.01 * len(prefix):
-            return viol("disconnected-late", f"closed at t={tr.close_time()}", **info)
+        if tr.close_time() > RT + 0.5 + 0.01 * len(prefix):
+            return viol("disconnected-late", f"closed at t={tr.close_time()} (request timeout {RT}s)", **info)
         if isinstance(wf, str) or wf[0] != 40:
             return viol("no-40-on-timeout", f"{S[:80]!r}", **info)
         return ok(**info)
@@ -156,6 +171,14 @@ def run_ordering(case: dict):
     from nauyaca.server.protocol import GeminiServerProtocol
 
     data = REQS[case["req"]]
+    RT, _ht = _timeouts()
+
+    def at(t):
+        # the instants of a case are laid out around a 30 s timeout; map them onto the timeout of the code under test
+        return None if t is None else (t * RT / 30.0 if t <= 29.0 else RT + (t - 30.0))
+
+    case = {**case, "rest_at": at(case["rest_at"]), "gate_at": at(case["gate_at"]), "disc_at": at(case["disc_at"]),
+            "extra_at": at(case.get("extra_at"))}
 
     async def scenario(loop):
         sim = srvsim.Sim(loop)
@@ -202,8 +225,8 @@ def run_ordering(case: dict):
 
     # "a 40 response": the status is fixed, the wording is the server's
     exp_to = S if _re.fullmatch(rb"40 [^\r\n]{0,1024}\r\n", S) else b"40 <one header line>\r\n"
-    completed_in_time = rest_at is not None and rest_at < 30.0 and (disc_at is None or disc_at >= rest_at)
-    disc_before_anything = disc_at is not None and disc_at < 30.0 and (rest_at is None or rest_at > disc_at)
+    completed_in_time = rest_at is not None and rest_at < RT and (disc_at is None or disc_at >= rest_at)
+    disc_before_anything = disc_at is not None and disc_at < RT and (rest_at is None or rest_at > disc_at)
     if S and isinstance(srvsim.parse_wf(S), str):
         return viol("malformed", f"{S[:80]!r}", **info)
     if disc_before_anything:
@@ -221,12 +244,12 @@ def run_ordering(case: dict):
             return viol("timeout-fired-after-complete-request" if S.startswith(b"40") else "wrong-response",
                         f"request complete at t={rest_at}, handler released at t={gate_t}: {S[:60]!r}", **info)
         return ok(**info)
-    if rest_at is not None and rest_at == 30.0:
+    if rest_at is not None and rest_at == RT:
         if S not in (exp_ok, exp_to):
             return viol("wrong-response", f"{S[:60]!r}", **info)
     else:
         # incomplete by the deadline
-        if disc_at is not None and disc_at <= 30.0:
+        if disc_at is not None and disc_at <= RT:
             if S not in (b"", exp_to):
                 return viol("wrong-response", f"{S[:60]!r}", **info)
             return ok(**info)
@@ -234,7 +257,7 @@ def run_ordering(case: dict):
             return viol("no-40-on-timeout", f"{S[:60]!r}", **info)
     if tr.close_time() is None and disc_at is None:
         return viol("never-disconnected", "", **info)
-    if tr.close_time() is not None and disc_at is None and tr.close_time() > max(30.5, (case["gate_at"] if completed_in_time else 0) + 0.5):
+    if tr.close_time() is not None and disc_at is None and tr.close_time() > max(RT + 0.5, (case["gate_at"] if completed_in_time else 0) + 0.5):
         return viol("disconnected-late", f"closed at {tr.close_time()}", **info)
     return ok(**info)
 
@@ -318,6 +341,7 @@ def run_tls(case: dict):
     if case.get("two_records"):
         full = 0  # everything the client produces is delivered: the request is complete
     k = case["k"]
+    RT, HT = _timeouts()
 
     async def scenario(loop):
         sim = srvsim.Sim(loop)
@@ -356,7 +380,7 @@ def run_tls(case: dict):
             if not out and (queued or sent[0] >= k):
                 break
         t_stall = loop.time()
-        await asyncio.sleep(100)
+        await asyncio.sleep(RT * 10 / 3)
         conn.client.step()
         at100 = bytes(conn.client.plain)
         sim.release_all()
@@ -374,7 +398,7 @@ def run_tls(case: dict):
         if closed_at is None:
             return viol("never-disconnected", f"{backend} TLS{case['tls']}: client certificate {ccert}, "
                         f"{'request sent, ' if case.get('send_request', True) else ''}then silent; still open at {HORIZON}s", where="unparsable-client-cert", **info)
-        if closed_at > 91.0:
+        if closed_at > max(HT, 60.0) + RT + 1.0:
             return viol("disconnected-late", f"closed at {closed_at}", **info)
         return ok(**info)
     complete = k >= full
@@ -390,12 +414,12 @@ def run_tls(case: dict):
         where = "handshake" if k < hs_len else "request"
         return viol("never-disconnected", f"{backend} TLS{case['tls']}: silent after {k} ciphertext bytes ({where}); still open at {HORIZON}s", where=where, **info)
     if k < hs_len:
-        if closed_at > 90.0 + 1:
+        if closed_at > max(HT, 60.0) + 30.0 + 1:
             return viol("disconnected-late", f"handshake stall closed at {closed_at}", **info)
         if plain:
             return viol("response-without-session", f"{plain[:40]!r}", **info)
         return ok(**info)
-    bound = 30.0 + (30.0 if backend == "stdlib" else 0.0) + 1.0
+    bound = RT + (30.0 if backend == "stdlib" else 0.0) + 1.0
     if closed_at > bound:
         return viol("disconnected-late", f"request stall closed at {closed_at} > {bound}", **info)
     wf = srvsim.parse_wf(plain) if plain else "empty"
